@@ -249,7 +249,7 @@ func digest(nodes []NodeSt, ents []Entry, orph, nlive, ndl int) string {
 //
 // A table entry whose connection has ended is waited for as well (its handler goroutine has to run): only an
 // entry that is still there after patience has run out is reported.
-func settle(w world, sk *sink, expect, maybe []int, halfOpen, orphBefore int, quic bool, patience time.Duration) (nodes []NodeSt, ents []Entry, orph, nlive int, ok bool) {
+func settle(w world, sk *sink, expect, maybe []int, halfOpen, orphBefore int, patience time.Duration) (nodes []NodeSt, ents []Entry, orph, nlive int, ok bool) {
 	deadline := time.Now().Add(patience)
 	last, same := "", 0
 	for {
@@ -275,7 +275,7 @@ func settle(w world, sk *sink, expect, maybe []int, halfOpen, orphBefore int, qu
 			closedNode[n.N] = n.Closed
 		}
 		for _, e := range ents {
-			if !e.Alive || (quic && closedNode[e.N]) {
+			if !e.Alive || closedNode[e.N] {
 				all = false // a handler goroutine still has to run its removal
 			}
 		}
@@ -421,7 +421,7 @@ func runSchedule(tw *trace.Writer, sc Schedule, rep int) {
 				}
 			}
 			t0 := time.Now()
-			e.Nodes, e.Ents, e.Orph, e.NLive, e.Settled = settle(w, sk, expect, maybe, halfOpen, orphBefore, sc.Tr == "quic", patience)
+			e.Nodes, e.Ents, e.Orph, e.NLive, e.Settled = settle(w, sk, expect, maybe, halfOpen, orphBefore, patience)
 			if time.Since(t0) >= patience {
 				patience = 1500 * time.Millisecond // something is stuck in this run: do not wait as long again
 			}
@@ -442,7 +442,7 @@ func runSchedule(tw *trace.Writer, sc Schedule, rep int) {
 		for n := 1; n <= sc.Nodes; n++ {
 			w.closeNode(n)
 		}
-		e.Nodes, e.Ents, e.Orph, e.NLive, e.Settled = settle(w, sk, nil, nil, -1, orphBefore, sc.Tr == "quic", 1500*time.Millisecond)
+		e.Nodes, e.Ents, e.Orph, e.NLive, e.Settled = settle(w, sk, nil, nil, -1, orphBefore, 1500*time.Millisecond)
 		e.Dl = sk.snapshot()
 	}()
 	emit(tw, e)
